@@ -141,6 +141,75 @@ pub fn run(g: &Graph, target: &mut dyn Target, seed: u64, thorough: bool) -> i32
             }
         }
     }
+    // 2b. small graphs: EVERY path from the initial state up to the largest depth that fits the budget
+    //     (a path also ends in a state without successors), so that every history of that many calls is
+    //     replayed, not only the pairs above (e.g. the glide dead band: every sequence of five set_time
+    //     calls followed by the observing probe)
+    {
+        let max_paths: u64 = if thorough { 25_000_000 } else { 2_500_000 };
+        // number of maximal paths of length <= d, by dynamic programming over the states
+        let mut depth = 0usize;
+        let mut cnt: Vec<u64> = vec![1; g.nstates]; // paths of remaining length 0
+        for d in 1..=12usize {
+            let mut next = vec![0u64; g.nstates];
+            for st in 0..g.nstates {
+                if g.out[st].is_empty() {
+                    next[st] = 1;
+                } else {
+                    let mut n = 0u64;
+                    for &ei in g.out[st].iter() {
+                        n = n.saturating_add(cnt[g.edges[ei].t]);
+                    }
+                    next[st] = n;
+                }
+            }
+            if next[g.init] > max_paths {
+                break;
+            }
+            cnt = next;
+            depth = d;
+        }
+        if depth >= 3 {
+            // iterative depth-first enumeration; every path is executed on a fresh object
+            let mut stack: Vec<(usize, usize)> = vec![(g.init, 0)]; // (state, next out-edge index)
+            let mut path: Vec<usize> = Vec::new();
+            loop {
+                let (st, k) = match stack.last() {
+                    Some(&x) => x,
+                    None => break,
+                };
+                let at_end = path.len() == depth || g.out[st].is_empty();
+                if at_end || k >= g.out[st].len() {
+                    if at_end && k == 0 {
+                        target.fresh();
+                        stats.add("paths", 1);
+                        for (i, &ei) in path.iter().enumerate() {
+                            let e = &g.edges[ei];
+                            let tags = target.apply(&e.op, &e.p);
+                            if !tags.is_empty() {
+                                // a divergence on an earlier step is reported by the path that ends there
+                                if i + 1 == path.len() {
+                                    mismatches += 1;
+                                    if mismatches <= 50 {
+                                        report(ei, &tags, &target.trace());
+                                    }
+                                }
+                                break;
+                            }
+                        }
+                    }
+                    stack.pop();
+                    path.pop();
+                    continue;
+                }
+                stack.last_mut().unwrap().1 = k + 1;
+                let ei = g.out[st][k];
+                path.push(ei);
+                stack.push((g.edges[ei].t, 0));
+            }
+            stats.add("path_depth", depth as i64);
+        }
+    }
     // 3. random walks (longer histories)
     let mut rng = Rng::new(seed ^ 0x77616c6b);
     let walks = if thorough { 4000 } else { 600 };
